@@ -35,7 +35,12 @@ type entry struct {
 	Kind   string `json:"kind"`             // tcp | tcp+tls | ws | wss (web-socket behind a TLS listener) | udp
 	Scheme string `json:"scheme,omitempty"` // how the upstream URL spells the scheme; "" = the kind's default (ws: http, wss: https, udp: udp), else ws | wss | udp4
 	Manner string `json:"manner"`           // good | plain | refused | silent | silent-inner | hs-400 | hs-garbage | hs-close
-	Host   string `json:"host,omitempty"`   // "" | localhost | ip: spelling of the host in the upstream URL; a real endpoint's certificate is valid for that spelling only
+	// kind "dns" with a failing manner: a DNS-tunnel upstream with that many resolver candidates, ALL of them dead in that
+	// manner (refused = closed ports | hs-400 = answers rcode REFUSED | hs-garbage | silent), written ?dns=a,b ("") |
+	// ?dns=a&dns=b ("repeat") | ?dns=udp://a,udp://b ("udp"); the name servers of /etc/resolv.conf come after them
+	Resolvers int    `json:"resolvers,omitempty"`
+	DNSList   string `json:"dns_list,omitempty"`
+	Host      string `json:"host,omitempty"` // "" | localhost | ip: spelling of the host in the upstream URL; a real endpoint's certificate is valid for that spelling only
 }
 
 // anyCase is the replayable descriptor of every kind of C16 case (Part selects which fields matter).
@@ -159,7 +164,14 @@ func build(entries []entry, forward string, secure bool) (*scenario, error) {
 				urls = append(urls, ep.URL())
 			}
 		} else {
-			sc, err = e2e.NewC16Scripted(en.Kind, en.Manner)
+			if en.Kind == "dns" {
+				sc, err = e2e.NewC16ScriptedDNS(en.Manner, en.Resolvers)
+				if err == nil {
+					sc.DNSList = en.DNSList
+				}
+			} else {
+				sc, err = e2e.NewC16Scripted(en.Kind, en.Manner)
+			}
 			if err == nil {
 				sc.Host, sc.Scheme = en.Host, en.Scheme
 				urls = append(urls, sc.URL())
@@ -212,6 +224,31 @@ func (s *scenario) physical() []int64 {
 		}
 	}
 	return out
+}
+
+// spinLimit: that many distinct client sockets at ONE dead resolver candidate of a dns upstream, all from the few
+// attempts of one case (the reference model dials a candidate once per attempt), are the witness that the client is
+// going round in circles on it.
+const spinLimit = 1000
+
+func (s *scenario) resolverContacts() (all [][]int, max int) {
+	for _, x := range s.scr {
+		if x != nil && x.Kind == "dns" {
+			c := x.ResolverContacts()
+			all = append(all, c)
+			for _, n := range c {
+				if n > max {
+					max = n
+				}
+			}
+		}
+	}
+	return
+}
+
+func (s *scenario) spins() bool {
+	_, m := s.resolverContacts()
+	return m >= spinLimit
 }
 
 func sum(v []int64) (n int64) {
@@ -365,8 +402,12 @@ func silentSig(e entry) string {
 		s += ":after-200"
 	case e.Manner == "silent-in-starttls":
 		s += ":in-starttls"
-	case e.Manner == "refused" && e.Kind == "udp":
+	case e.Manner == "refused" && (e.Kind == "udp" || e.Kind == "dns"):
 		s += ":closed-port"
+	case e.Kind == "dns" && e.Manner == "hs-400":
+		s += ":answers-refused"
+	case e.Kind == "dns" && e.Manner == "hs-garbage":
+		s += ":answers-garbage"
 	}
 	return s
 }
@@ -390,7 +431,7 @@ func runList(rec *vcommon.Rec, c *anyCase) (stalled bool) {
 	}
 	wait := stdWait
 	if c.Part == "silent" {
-		wait = func(d <-chan struct{}) e2e.Outcome { return e2e.C16WaitLocal(d, s.progress, silentWindow) }
+		wait = func(d <-chan struct{}) e2e.Outcome { return e2e.C16WaitLocalBusy(d, s.progress, silentWindow, s.spins) }
 	}
 	want, wantIdx := expected(c)
 	key := uint64(c.Seed)*16 + 1
@@ -445,6 +486,10 @@ func runList(rec *vcommon.Rec, c *anyCase) (stalled bool) {
 	if s.fwd != nil {
 		obs["forward_target_accepts"] = s.fwd.AcceptCount()
 	}
+	if rc, m := s.resolverContacts(); rc != nil {
+		obs["client_sockets_seen_per_dead_resolver(dns entries)"] = rc
+		rec.StatMax("dns:client_sockets_seen_at_one_dead_resolver", int64(m))
+	}
 
 	securedSessions, sessions := -1, 0
 	if watchSessions {
@@ -462,9 +507,12 @@ func runList(rec *vcommon.Rec, c *anyCase) (stalled bool) {
 		}
 		obs["sessions_accepted_by_the_servers(as the server sees them)"] = seen
 	}
-	for _, e := range c.Entries {
+	for i, e := range c.Entries {
 		rec.Seen("entry(kind,manner)", e.Kind+"/"+e.Manner)
 		rec.Seen("entry(kind,scheme,manner,secure-required)", fmt.Sprintf("%s|%s|%s|%v", e.Kind, e.Scheme, e.Manner, c.Secure))
+		if e.Kind == "dns" {
+			rec.Seen("dns-entry(manner,dead-resolver-candidates,list-syntax,position,list-length)", fmt.Sprintf("%s|%d|%s|%d|%d", e.Manner, e.Resolvers, e.DNSList, i, len(c.Entries)))
+		}
 	}
 	rec.Seen("list(length,failing-positions,forward,secure)", fmt.Sprintf("%d|%s|%s|%v", len(c.Entries), failMask(c), c.Forward, c.Secure))
 	rec.Seen("forward", c.Forward)
@@ -500,8 +548,12 @@ func runList(rec *vcommon.Rec, c *anyCase) (stalled bool) {
 		}
 		switch {
 		case c.Part == "silent" && stuck >= 0 && !isReal(c.Entries[stuck]) &&
-			(strings.HasPrefix(c.Entries[stuck].Manner, "silent") || (c.Entries[stuck].Kind == "udp" && c.Entries[stuck].Manner == "refused")):
-			viol(silentSig(c.Entries[stuck]))
+			(strings.HasPrefix(c.Entries[stuck].Manner, "silent") || (c.Entries[stuck].Kind == "udp" && c.Entries[stuck].Manner == "refused") || c.Entries[stuck].Kind == "dns"):
+			sig := silentSig(c.Entries[stuck])
+			if s.spins() {
+				sig += ":same-dead-resolver-dialled-without-end"
+			}
+			viol(sig)
 		case c.Forward == "reachable":
 			viol("forward:ignored")
 		case want != "":
@@ -816,10 +868,23 @@ func silentCases(rec *vcommon.Rec) []*anyCase {
 	add(true, "none", entry{Kind: "wss", Scheme: "wss", Manner: "silent"}, entry{Kind: "ws", Scheme: "ws", Manner: "good"})
 	add(false, "none", entry{Kind: "wss", Manner: "silent-inner"}, entry{Kind: "udp", Scheme: "udp4", Manner: "good"})
 	add(true, "none", entry{Kind: "ws", Scheme: "ws", Manner: "silent-after-200"}, entry{Kind: "wss", Manner: "good"})
+	// a DNS-tunnel upstream with 1, 2, 3 resolver candidates, every one of them dead (the name servers of /etc/resolv.conf
+	// are tried after them): each candidate costs the tunnel handshake its own time-outs, then the upstream is given up
+	add(false, "none", entry{Kind: "dns", Manner: "refused", Resolvers: 1}, entry{Kind: "tcp", Manner: "good"})
+	add(false, "none", entry{Kind: "dns", Manner: "refused", Resolvers: 2}, entry{Kind: "ws", Manner: "good"})
+	add(true, "none", entry{Kind: "dns", Manner: "refused", Resolvers: 3, DNSList: "repeat"}, entry{Kind: "tcp+tls", Manner: "good"})
+	add(false, "none", entry{Kind: "dns", Manner: "hs-400", Resolvers: 1, DNSList: "udp"}, entry{Kind: "tcp", Manner: "plain"})
+	add(true, "refused", entry{Kind: "dns", Manner: "hs-400", Resolvers: 2}, entry{Kind: "tcp", Manner: "good"})
+	add(false, "none", entry{Kind: "dns", Manner: "hs-garbage", Resolvers: 2, DNSList: "repeat"}, entry{Kind: "udp", Manner: "good"})
+	add(false, "none", entry{Kind: "tcp", Manner: "hs-close"}, entry{Kind: "dns", Manner: "hs-garbage", Resolvers: 3, DNSList: "udp"}, entry{Kind: "wss", Manner: "good"})
+	add(false, "none", entry{Kind: "tcp", Manner: "good"}, entry{Kind: "dns", Manner: "refused", Resolvers: 2}) // after a healthy upstream: never contacted
+	add(false, "none", entry{Kind: "dns", Manner: "hs-400", Resolvers: 2})                                      // nobody good: must be given up, not held for ever
 	if rec.Thorough() {
 		rng := vcommon.NewRand(rec.Seed(), "c16/silent")
 		sil := []entry{{Kind: "tcp", Manner: "silent"}, {Kind: "tcp+tls", Manner: "silent"}, {Kind: "tcp+tls", Manner: "silent-inner"}, {Kind: "ws", Manner: "silent"}, {Kind: "ws", Manner: "silent-inner"}, {Kind: "udp", Manner: "silent"}, {Kind: "udp", Manner: "refused"},
-			{Kind: "wss", Manner: "silent"}, {Kind: "wss", Scheme: "wss", Manner: "silent-inner"}, {Kind: "ws", Scheme: "ws", Manner: "silent"}, {Kind: "udp", Scheme: "udp4", Manner: "silent"}}
+			{Kind: "wss", Manner: "silent"}, {Kind: "wss", Scheme: "wss", Manner: "silent-inner"}, {Kind: "ws", Scheme: "ws", Manner: "silent"}, {Kind: "udp", Scheme: "udp4", Manner: "silent"},
+			{Kind: "dns", Manner: "silent", Resolvers: 1, DNSList: "udp"}, {Kind: "dns", Manner: "refused", Resolvers: 2, DNSList: "udp"}, {Kind: "dns", Manner: "hs-400", Resolvers: 3, DNSList: "repeat"},
+			{Kind: "dns", Manner: "hs-garbage", Resolvers: 1}, {Kind: "dns", Manner: "hs-400", Resolvers: 2, Host: "localhost"}}
 		sil = append(sil, halfSilent...)
 		for i, x := range sil {
 			secure := i%2 == 0
